@@ -12,6 +12,14 @@ CLAIMED = {
             "runtime monitor: real Provisioner.Schedule on generated worlds; every placement judged by an independent admissibility oracle (upstream nodeaffinity/toleration/pod-request code + first-principles host ports and sums) on every concrete node each launch option can become",
             "Thousands of generated worlds (catalogs with unavailable / overridden / reserved offerings, NodePools over all operators, daemonsets, managed nodes grown through the real provision→launch→register→initialize pipeline, unmanaged and deleting nodes) x pod batches x {preference policy, minValues policy, parallelism, ReservedCapacity}; each placement on an existing node is checked against provider/API ground truth, each new NodeClaim against every instance-type option x available compatible offering x concrete label assignment. Held-on-observed.",
             "Trusts the oracle (upstream k8s matchers, 300 lines of first-principles checks), the fake API server and the hostile provider. Volume limits / PV zones are not generated yet. One recorded finding (unsatisfiable conjunction represented as DoesNotExist)."),
+    "C04": ("exploration", "DESIGN.md §3 C04",
+            "runtime monitor: lifecycle replay through the real provisioner + lifecycle controller + kubelet actor with a hostile provider; every pod on a new NodeClaim judged inadmissible on every active existing node (independent oracle, provider ground truth); API read log watched for scheduling passes while a NodeClaim is unlaunched",
+            "Pods without inter-pod constraints or preferences are provisioned and deliberately left pending while each created NodeClaim moves at its own pace through created/launched/node-appeared/registered/initialized; provisioning is re-run after every step (3-8 passes per case) and each pod placed on new capacity must be inadmissible on all existing/in-flight nodes with their final load, nodes marked for deletion must not receive pods, and the real Provisioner.Reconcile must not reach a scheduling pass while a claim is unlaunched. Held-on-observed.",
+            "Judges 'could admit' with the constraints Karpenter evaluates for the placed copy (first required OR-term, PreferNoSchedule treated as hard) so that only placements wrong under every reading alarm; daemonsets select on NodePool-level labels only; trusts oracle, fake API, provider ground truth."),
+    "C19": ("exploration", "DESIGN.md §3 C19",
+            "runtime monitor: real Scheduler.Solve/Truncate/Create on weighted pools; opener pod of each new NodeClaim judged (conservatively) infeasible on every heavier pool; instance types captured at the API boundary priced against the scheduler's pre-truncation options; race detector pass over parallel template evaluation",
+            "2-5 weighted NodePools (ties, nil weights) x catalogs with price ties x parallelism 1-16 x lowered MaxInstanceTypes: the pod that opens each NodeClaim must be infeasible on every strictly heavier ready pool under a deliberately conservative single-pod feasibility oracle, and no sent instance type may be dearer (cheapest compatible available offering) than an option that truncation left out. Data races between Karpenter code paths during parallel evaluation count as violations. Held-on-observed.",
+            "Weight oracle skips pools with limits, minValues, custom-label requirements or a reserved-offering deferral (counted); feasibility uses the constraints Karpenter evaluates for the placed copy. Trusts oracle and fake API."),
     "C13": ("exploration", "DESIGN.md §3 C13",
             "runtime monitor: NodeClaim objects captured at the API boundary (interceptor) compared key-by-key over a probe universe with the scheduler's in-memory requirements; NodePools pre-filtered by the real in-process CRD schema + CEL + RuntimeValidate pipeline; panics recovered per Create",
             "NodePool requirements are redrawn over all eight operators with several requirements per key (well-known enumerated / integer and custom keys, incl. Lt 0, Gt+NotIn, Gte+Lte), kept only if a real API server would accept them, and pushed through the real Solve → Truncate → Provisioner.Create path; for every created NodeClaim the serialized requirements, instance-type list, minValues floors, resource requests, labels, taints and hash annotations are judged against the in-memory decision and the template. Held-on-observed; two genuine defects found and fixed.",
